@@ -45,6 +45,7 @@ func runC04(w *World, r *Report) {
 	c04DestWins(w, r)
 	c04NullDeletes(w, r)
 	c04NoMutation(w, r, "C04/NO-MUTATION", nil)
+	c04MultiDoc(w, r)
 }
 
 func c04FlagOrder(w *World, r *Report) {
@@ -721,4 +722,92 @@ func c04ReturnsDest(w *World, r *Report, ctfk *ssa.Function) {
 		}
 		r.Check(bad == "", "C04/DEST-WINS", "coalesceTablesFullKey/returns-destination", w.Pos(ctfk.Pos()), "the in-place merge returns its destination (another table only where the destination is nil)", "the merge can return a table other than its destination although the destination is not nil (at "+bad+"): the nested call sites ignore the result, so keys of the lower-precedence table are lost")
 	}
+}
+
+// c04MultiDoc: a values file may hold several YAML documents; each is decoded into a map of its own and
+// merged key by key into what the earlier documents gave (decoding straight into the accumulated map
+// would replace nested tables wholesale).
+func c04MultiDoc(w *World, r *Report) {
+	r.Rule("C04/MULTI-DOC", "LoadValues decodes every YAML document into a map created for that document and folds it into the accumulated values with MergeMaps (accumulated first, new document second) on every path of the loop", 1)
+	fn := w.Fn("pkg/chart/v2/loader", "LoadValues")
+	mm := w.Fn("pkg/chart/v2/loader", "MergeMaps")
+	if fn == nil || mm == nil {
+		r.Unk("C04/MULTI-DOC", "anchor", "-", "loader.LoadValues / MergeMaps not found")
+		return
+	}
+	r.Fn(FuncName(fn))
+	scc := sccOf(fn)
+	var dec ssa.CallInstruction
+	var merges []ssa.CallInstruction
+	for _, c := range callInstrs(fn) {
+		f, _ := calleeOf(c.Common())
+		if f == nil {
+			continue
+		}
+		if (fnPkgPath(f) == "sigs.k8s.io/yaml" || fnPkgPath(f) == "encoding/json") && strings.HasPrefix(f.Name(), "Unmarshal") {
+			dec = c
+		}
+		if origin(f) == mm {
+			merges = append(merges, c)
+		}
+	}
+	if dec == nil || len(merges) == 0 {
+		r.Bad("C04/MULTI-DOC", "LoadValues", w.Pos(fn.Pos()), "LoadValues no longer decodes each document and merges it with MergeMaps")
+		return
+	}
+	comp := scc[dec.Block()]
+	in := map[*ssa.BasicBlock]bool{}
+	for _, b := range comp {
+		in[b] = true
+	}
+	why := ""
+	// the decode target: an allocation made inside the loop, holding a map made inside the loop
+	fresh := false
+	if al, ok := dec.Common().Args[1].(*ssa.Alloc); ok && in[al.Block()] && len(comp) > 1 {
+		for _, rf := range *al.Referrers() {
+			if st, ok := rf.(*ssa.Store); ok && st.Addr == ssa.Value(al) {
+				if mk, ok := st.Val.(*ssa.MakeMap); ok && in[mk.Block()] {
+					fresh = true
+				}
+			}
+		}
+	} else if mi, ok := dec.Common().Args[1].(*ssa.MakeInterface); ok {
+		if al, ok := mi.X.(*ssa.Alloc); ok && in[al.Block()] && len(comp) > 1 {
+			for _, rf := range *al.Referrers() {
+				if st, ok := rf.(*ssa.Store); ok && st.Addr == ssa.Value(al) {
+					if mk, ok := st.Val.(*ssa.MakeMap); ok && in[mk.Block()] {
+						fresh = true
+					}
+				}
+			}
+		}
+	}
+	if !fresh {
+		why = "the document is not decoded into a map created for it (it is decoded into a map that outlives the iteration)"
+	}
+	// the merge follows the decode on every path back to the loop head
+	g := FullGraph(fn)
+	var ms []ssa.Instruction
+	for _, m := range merges {
+		ms = append(ms, m)
+	}
+	if why == "" {
+		oks := okEdgesOfCall(dec)
+		for _, e := range oks {
+			for _, b := range comp {
+				isHdr := false
+				for _, p := range b.Preds {
+					if !in[p] {
+						isHdr = true
+					}
+				}
+				if isHdr && len(e.To().Instrs) > 0 {
+					if ex, _ := g.PathExists(IPos{e.To(), -1}, IPos{b, 0}, avoidInstrs(ms...)); ex {
+						why = "a decoded document can be dropped without being merged"
+					}
+				}
+			}
+		}
+	}
+	r.Check(why == "", "C04/MULTI-DOC", "LoadValues", w.InstrPos(dec), "each document gets its own map and is merged key by key", why+": a table repeated in a later document replaces the earlier one instead of merging with it")
 }
